@@ -79,7 +79,7 @@ def frameOps (fx : Bool) (ws : List String) : Option String :=
       if FrameCrash.bit flags 0 then some "err" else
       some (match FrameCrash.parseFrame fx (proto % 128) true flags 8 body with
         | .ok (.rows m _) _ =>
-          (match RowsCrash.rowDataFx fx m.cols 0 with
+          (match RowsCrash.rowData m.cols 0 with
            | .ok k => "ok:newrow:" ++ toString k
            | .err => "err:newrow"
            | .crashMapOf => "crash:goType:reflect"
